@@ -7,6 +7,7 @@ cd "$HERE" || exit 2
 SEEDS="$*"; [ -n "$SEEDS" ] || SEEDS="$(ls seeded | grep -E '^C[0-9]+-m[0-9]+$')"
 for s in $SEEDS; do
   p="${s%%-*}"
+  if grep -q '"retired"' "seeded/$s/meta.json" 2>/dev/null; then echo "$s $p RETIRED (see meta.json)"; continue; fi
   out="$(tools/try_patch.sh "seeded/$s/patch.diff" "$p" 2>&1)"
   if echo "$out" | grep -q "^VIOLATION.*no-failing-input-found"; then
     if echo "$out" | grep "^VIOLATION" | grep -vq "no-failing-input-found"; then v="CAUGHT failing-input"; else v="CAUGHT no-failing-input-found"; fi
